@@ -38,9 +38,6 @@ theorem reFix_raw (ps : List LayerInfo) (p : Bytes) (k : Nat) : ReFix ps [.raw p
     rw [sizeOfStack_raw] at hl
     exact L2.serializeInto_raw ps' _ region' hl
 
-theorem splitRaw_single (x : AnyObj) (hx : isRaw x = false) : (splitRaw [x]).2 = [] := by
-  cases x <;> first | rfl | cases hx
-
 /-- **one layer on top of a sub-stack whose second serialization is known** -/
 theorem chain_fix_layer (x : AnyObj) (os : List AnyObj) (ps : List LayerInfo) (region : Bytes)
     (hok : LayerOK x os) (hcov : FixCov x) (hna : NoApp x) (hpay : (splitRaw (x :: os)).2 ≠ [])
